@@ -18,4 +18,4 @@ For each mutation k in (1,2) deliver in /tmp/mutout/{pid}/m<k>/ :
   - patch.diff : `git diff` of the non-test source change only, relative to the worktree root; it must apply with `git apply` to a clean checkout of HEAD.
   - a demonstration that FAILS with the change and PASSES without it: preferably one new Go test file (name it verifdemo_test.go, say which package directory it goes in), or a small main program; it should drive the real code through its API (exported or package-internal), and print/assert the violated behaviour.
   - meta.json : {{"property": "{pid}", "summary": "<one line>", "mechanism": "<what was changed and why it breaks the property>", "needs_to_manifest": "<the specific interleaving / sequence / input / fault needed>", "demo": {{"file": "verifdemo_test.go", "package_dir": "<dir>", "command": "<go test command>"}}, "tests_run": ["<commands you ran for the existing tests and their result>"]}}
-You MUST verify yourself, in the worktree: (a) with the patch applied the touched packages build and their existing tests (and the tests of the packages that directly depend on the changed behaviour) pass: `go test -count=1 ./<pkg>/...`; (b) the demonstration fails with the patch and passes on the clean tree (use `git stash`/`git apply -R` to switch). Leave the worktree clean (git checkout -- . ; remove untracked files) when you are done. If you can only produce one valid mutation, deliver one and say why. Finish with a short report: for each mutation the one-line summary, what it needs to manifest, and the exact commands you ran with results.""")
+You MUST verify yourself, in the worktree: (a) with the patch applied the touched packages build and their existing tests (and the tests of the packages that directly depend on the changed behaviour) pass: `go test -count=1 ./<pkg>/...`; (b) the demonstration fails with the patch and passes on the clean tree (switch with `git apply patch.diff` / `git apply -R patch.diff`; NEVER use `git stash`: the stash is shared by all worktrees of this repository and other jobs would pop your change). Leave the worktree clean (git checkout -- . ; remove untracked files) when you are done. If you can only produce one valid mutation, deliver one and say why. Finish with a short report: for each mutation the one-line summary, what it needs to manifest, and the exact commands you ran with results.""")
